@@ -100,12 +100,13 @@ impl Scenario for ToVecSc {
       // a clone shares the future's state: it is observed once more after the first one became ready
       let mut fut_again = Box::pin(tv.clone());
       let mut fut = Box::pin(tv);
-      let token = Arc::new(AtomicBool::new(false));
-      let waker = Waker::from(Arc::new(ThreadWaker { thread: shuttle::thread::current(), token: token.clone() }));
-      let mut cx = Context::from_waker(&waker);
+      let mut token = Arc::new(AtomicBool::new(false));
+      let mut waker = Waker::from(Arc::new(ThreadWaker { thread: shuttle::thread::current(), token: token.clone() }));
+      let mut switched = false;
       let mut polls = 0;
       loop {
         polls += 1;
+        let mut cx = Context::from_waker(&waker);
         match fut.as_mut().poll(&mut cx) {
           Poll::Ready(r) => {
             let res = match r {
@@ -138,6 +139,15 @@ impl Scenario for ToVecSc {
             if polls > 50 {
               facade::log("h", 0, "", "result GAVE-UP".into());
               break;
+            }
+            if !switched {
+              // the future moves to another task: the next poll (the model's spurious return from park) brings a
+              // DIFFERENT waker, and from now on only that one is listened to - a poll must replace the stored waker
+              switched = true;
+              token = Arc::new(AtomicBool::new(false));
+              waker = Waker::from(Arc::new(ThreadWaker { thread: shuttle::thread::current(), token: token.clone() }));
+              facade::log("h", 0, "", "spurious".into());
+              continue;
             }
             shuttle::thread::park();
             if token.swap(false, Ordering::SeqCst) {
